@@ -2,6 +2,9 @@ import HexProofs.Manager.Trim
 import HexProofs.Manager2.TrimTf
 import HexProofs.Manager2.ShiftInst
 import HexProofs.Manager2.TwinSched
+import HexProofs.Manager2.TwinWindow
+import HexProofs.Footprint.Schedule
+import HexProofs.Framework.Gen.AllX
 import HexProofs.Lib.IntInst
 import HexProps.C03
 /-
@@ -381,6 +384,48 @@ theorem C15b_partial (k : Kind F) (name : String) (round : Nat) (hc : Covered na
 
 theorem lookBack_free (k : Kind F) (hk : OnePredFree k) : lookBack k = some 1 := by
   cases hk <;> rfl
+
+theorem lookBack_eq (k : Kind F) : lookBack k = lookBackW k := by cases k <;> rfl
+
+/-- **`C15b_FULL` holds**: the second clause for HLA, TR, OBV, Counter (one predecessor), SMA, ROC (`period`
+predecessors), WMA, VWMA and EMA / RMA WITHOUT any seededness assumption (`period − 1` predecessors: the
+seed window), over every construction prefix and append schedule.  (HexProofs/Manager2/TwinWindow.lean:
+the schedule induction of TwinSched generalised from one retained predecessor to `RetainsFrom L`.) -/
+theorem C15b_FULL_holds : C15b_FULL (F := F) := by
+  intro k name round L hc hL life init chunks hp hinit hret
+  exact C15b_full_leaf k name round L hc (by rw [← lookBack_eq]; exact hL) life init chunks hp hinit hret
+
+/-- **C15, second clause, EVERY leaf class** (HighestLowest, Donchian, Aroon and `Amorph` over the 20 analysis
+functions included): with `W = Hex.window k` the footprint of one reading (HexProofs/Footprint/Kinds.lean – a reading
+at index `i` only touches candles `i − W … i`, with no state condition), every append schedule that at each
+popping append retains `max 1 W` finished candles leaves the trimmed indicator with the candles of its untrimmed
+twin minus the popped ones: same readings on every retained candle, same exception if a reading raises. -/
+theorem C15b_leaf (k : Kind F) (name : String) (round : Nat) (hc : Covered name k)
+    (W : Nat) (hw : Hex.window k = some W)
+    (life : Int) (init : List (Candle F)) (chunks : List (List (Candle F)))
+    (hp : ∀ c ∈ init ++ chunks.flatten, Plain c)
+    (hinit : trimCandles (some life) init = .ok init)
+    (hret : RetainsFrom (max 1 W) life init init.length chunks) :
+    ∃ d, candlesOf (runIndicator (mkTop k name round) (cfgLife life) init chunks)
+        = (candlesOf (runIndicator (mkTop k name round) {} init chunks)).map (·.drop d) :=
+  twin_schedule_window k name round hc W hw life init chunks hp hinit hret
+
+/-- every covered leaf kind has such a window -/
+theorem C15b_leaf_total (k : Kind F) (name : String) (hc : Covered name k) : ∃ W, Hex.window k = some W :=
+  hc.window_some
+
+/-- **What is still open for the second clause**: composite indicators (their helper series must be retained
+as well: the look-back of a tree is the maximum over its nodes, and the resume logic of every helper must find
+its predecessor), members of a Hexital, and the combination with a collapsing timeframe (first clause:
+`schedule_tf`).  Covered by the C15b oracle (untrimmed twin, tightest admissible window) and the tie only. -/
+def C15b_trees_FULL : Prop :=
+  ∀ (k : Kind F) (name : String) (round : Nat), CoveredTreeX name k →
+    ∃ L : Nat, ∀ (life : Int) (init : List (Candle F)) (chunks : List (List (Candle F))),
+      (∀ c ∈ init ++ chunks.flatten, Plain c) → trimCandles (some life) init = .ok init →
+      RetainsFrom L life init init.length chunks →
+      ∀ a b, candlesOf (runIndicator (mkTop k name round) (cfgLife life) init chunks) = .ok a →
+        candlesOf (runIndicator (mkTop k name round) {} init chunks) = .ok b →
+        ∃ d, a = b.drop d
 
 /-- **Every append schedule – EMA**, when the recurrence is already seeded after construction (the
 last candle of the constructed indicator holds a non-`None` EMA); ONE retained predecessor then
